@@ -91,9 +91,11 @@ package parallel
 //@ pure exhaustedI(ts []execution.TaskRef, h string, maxAttempts int64) bool = !succI(ts, h) && finCountI(ts, h, len(ts)) >= maxAttempts
 
 // number of parallel indexes of a spec and the hash of the i-th one (defined by GenerateIndexes / HashIndex; see C14)
-//@ pure numIdx(spec *execution.ParallelismSpec) Int
+//@ pure numCombos(m map[string][]string) Int
+//@ axiom combos-nonneg: forall m map[string][]string :: numCombos(m) >= 0
+//@ pure numIdx(spec *execution.ParallelismSpec) Int =
+//@     spec == nil ? 1 : (spec.WithCount != nil ? *spec.WithCount : (len(spec.WithKeys) > 0 ? len(spec.WithKeys) : (len(spec.WithMatrix) > 0 ? numCombos(spec.WithMatrix) : 1)))
 //@ pure idxHash(spec *execution.ParallelismSpec, i Int) string
-//@ axiom at-least-zero-indexes: forall spec *execution.ParallelismSpec :: numIdx(spec) >= 0
 //@ pure specOf(job *execution.Job) *execution.ParallelismSpec = job.Spec.Template != nil ? job.Spec.Template.Parallelism : nil
 //@ pure strategyAll(job *execution.Job) bool = specOf(job) == nil || specOf(job).CompletionStrategy == "" || specOf(job).CompletionStrategy == execution.AllSuccessful
 //@ pure strategyAny(job *execution.Job) bool = specOf(job) != nil && specOf(job).CompletionStrategy == execution.AnySuccessful
@@ -108,9 +110,33 @@ package parallel
 
 // TEMPORARILY ASSUMED (group-by over hash-keyed maps; see DESIGN.md): the status of index i is getIndexStatus applied to
 // exactly the tasks whose hash is that index's hash
-//@ extern func GenerateIndexes
-//@   params spec
-//@   ensures len(result) == numIdx(spec)
+// matrix expansion (C14): ASSUMED here; the cartesian product itself is covered by a bounded stand-in (see DESIGN.md)
+//@ extern func github.com/furiko-io/furiko/pkg/utils/matrix.GenerateMatrixCombinations
+//@   params m
+//@   fresh result
+//@   ensures len(result) == numCombos(m)
+
+//@ func GetDefaultIndex
+//@   ensures [C14] result.IndexNumber != nil && *result.IndexNumber == 0 && result.IndexKey == "" && result.MatrixValues == nil
+
+// GenerateIndexes (C14): exactly the requested indexes, in a deterministic order, nothing else set
+//@ func GenerateIndexes
+//@   tags C14, C17
+//@   safety alloc
+//@   requires spec != nil && spec.WithCount != nil ==> *spec.WithCount >= 0
+//@   loop 1 invariant 0 <= i && i <= *spec.WithCount && len(indexes) == *spec.WithCount
+//@   loop 1 invariant forall k int :: 0 <= k && k < i ==> indexes[k].IndexNumber != nil && *indexes[k].IndexNumber == k && indexes[k].IndexKey == "" && indexes[k].MatrixValues == nil
+//@   loop 2 invariant -1 <= rangeindex && rangeindex < len(spec.WithKeys) && len(indexes) == rangeindex + 1
+//@   loop 2 invariant forall k int :: 0 <= k && k <= rangeindex ==> indexes[k].IndexKey == spec.WithKeys[k] && indexes[k].IndexNumber == nil && indexes[k].MatrixValues == nil
+//@   loop 3 invariant -1 <= rangeindex && rangeindex < len(combinations) && len(indexes) == rangeindex + 1
+//@   loop 3 invariant forall k int :: 0 <= k && k <= rangeindex ==> indexes[k].MatrixValues == combinations[k] && indexes[k].IndexNumber == nil && indexes[k].IndexKey == ""
+//@   ensures [C14] exactly-the-requested-number: len(result) == numIdx(spec)
+//@   ensures [C14] with-count: spec != nil && spec.WithCount != nil ==>
+//@        (forall k int :: 0 <= k && k < len(result) ==> result[k].IndexNumber != nil && *result[k].IndexNumber == k && result[k].IndexKey == "" && result[k].MatrixValues == nil)
+//@   ensures [C14] with-keys: spec != nil && spec.WithCount == nil && len(spec.WithKeys) > 0 ==>
+//@        (forall k int :: 0 <= k && k < len(result) ==> result[k].IndexKey == spec.WithKeys[k] && result[k].IndexNumber == nil && result[k].MatrixValues == nil)
+//@   ensures [C14] default-single-index: (spec == nil || (spec.WithCount == nil && len(spec.WithKeys) == 0 && len(spec.WithMatrix) == 0)) ==>
+//@        len(result) == 1 && result[0].IndexNumber != nil && *result[0].IndexNumber == 0
 
 //@ extern func GetParallelStatus
 //@   params job, tasks
